@@ -203,6 +203,9 @@ func exec(s *Scenario, guard bool) (ms []core.Mismatch) {
 			scale := math.Abs(s.Emb.Det())
 			tol := 1e-6 * scale * 64
 			aAnd, aOr, aXor, aNot, aDiv, aP, aQ := a(res["and"]), a(res["or"]), a(res["xor"]), a(res["not"]), a(res["div"]), a(sp), a(sq)
+			if rel := 1e-5 * (math.Abs(aP) + math.Abs(aQ)); rel > tol {
+				tol = rel // snapping moves every vertex by up to the 1e-8 grid whatever the scale: at scale 1e-3 that is 1e-5 of the size
+			}
 			chk := func(name string, lhs, rhs float64) {
 				if math.Abs(lhs-rhs) > tol || math.IsNaN(lhs) || math.IsNaN(rhs) {
 					ms = append(ms, core.Mismatch{Signature: "area-law-" + name + "+" + s.tag(), Detail: fmt.Sprintf("P=%s Q=%s emb=%s: %s: %.9g vs %.9g (areas and=%.6g or=%.6g xor=%.6g not=%.6g div=%.6g P=%.6g Q=%.6g)",
